@@ -436,6 +436,11 @@ func (r *Runner) runLevelInproc(sp *Space, lvl int, bm *bitmap, perLevel []int64
 
 const shmSize = 4096
 
+// harnessExit is the exit status of a worker that met a harness inconsistency.
+// It must differ from 2, which is what the Go runtime uses for fatal errors
+// and uncaught panics of the code under test.
+const harnessExit = 12
+
 type shm struct {
 	f   *os.File
 	mem []byte
@@ -505,7 +510,7 @@ func WorkerMain(chk *Check, tier string, args []string) int {
 		resume, err = ParseDevList(args[4])
 		if err != nil {
 			fmt.Fprintln(os.Stderr, "bad resume", err)
-			return 2
+			return harnessExit
 		}
 		hasResume = true
 	}
@@ -519,7 +524,7 @@ func WorkerMain(chk *Check, tier string, args []string) int {
 	}
 	if sp == nil {
 		fmt.Fprintln(os.Stderr, "no such space", spName)
-		return 2
+		return harnessExit
 	}
 	out := os.NewFile(3, "results")
 	enc := json.NewEncoder(out)
@@ -532,7 +537,7 @@ func WorkerMain(chk *Check, tier string, args []string) int {
 	sm, err := openShm(os.Getenv("VCHECK_SHM"), false)
 	if err != nil {
 		fmt.Fprintln(os.Stderr, "shm:", err)
-		return 2
+		return harnessExit
 	}
 	bm := newBitmap()
 	agg := &levelAgg{outcomes: map[string]struct{}{}}
@@ -557,6 +562,7 @@ func WorkerMain(chk *Check, tier string, args []string) int {
 		for {
 			time.Sleep(500 * time.Millisecond)
 			c, _ := sm.get()
+			c += atomic.LoadUint64(&ProgressTicks) << 40
 			if c != last {
 				last = c
 				lastChange = time.Now()
@@ -597,7 +603,7 @@ func WorkerMain(chk *Check, tier string, args []string) int {
 	}()
 	if he != nil {
 		fmt.Fprintln(os.Stderr, he.Error())
-		return 2
+		return harnessExit
 	}
 	// signal "no execution in flight" so a late death is not attributed
 	sm.mem[10] = 1
@@ -825,7 +831,7 @@ func (r *Runner) runWorker(sp *Space, lvl, i, k int, resume, tmp string) workerR
 	if werr != nil {
 		res.exit = werr.Error()
 	}
-	if ee, ok := werr.(*exec.ExitError); ok && ee.ExitCode() == 2 {
+	if ee, ok := werr.(*exec.ExitError); ok && ee.ExitCode() == harnessExit {
 		b, _ := os.ReadFile(errPath)
 		fmt.Printf("HARNESS-ERROR: worker %d of %s: %s\n", i, sp.Name, truncate(string(b), 4000))
 		os.Exit(2)
@@ -882,6 +888,9 @@ func (r *Runner) attribute(sp *Space, lvl int, res workerResult) bool {
 			if i := strings.Index(dump, "HANG-FUNC: "); i >= 0 {
 				hangFn = strings.TrimSpace(strings.SplitN(dump[i+11:], "\n", 2)[0])
 			}
+		} else if ok && ee.ExitCode() == harnessExit {
+			fmt.Printf("HARNESS-ERROR: re-running %s/%s alone: %s\n", sp.Name, res.culprit, truncate(dump, 2000))
+			os.Exit(2)
 		} else if ok && ee.ExitCode() != 1 {
 			died = true // exit 1 = the execution completed and reported oracle failures in-process
 		}
@@ -998,17 +1007,34 @@ func Exec1Main(chk *Check, tier string, spName, devs string, verbose bool) int {
 	}
 	if sp == nil {
 		fmt.Println("no such space", spName)
-		return 2
+		return harnessExit
 	}
 	d, err := ParseDevList(devs)
 	if err != nil {
 		fmt.Println(err)
-		return 2
+		return harnessExit
 	}
 	if os.Getenv("VCHECK_HANG_SAMPLER") != "" {
 		go hangSampler()
 	}
-	x := Run(sp.H, d, true)
+	var x *Exec
+	var he *HarnessError
+	func() {
+		defer func() {
+			if rec := recover(); rec != nil {
+				if h, ok := rec.(HarnessError); ok {
+					he = &h
+					return
+				}
+				panic(rec)
+			}
+		}()
+		x = Run(sp.H, d, true)
+	}()
+	if he != nil {
+		fmt.Println(he.Error())
+		return harnessExit
+	}
 	if verbose {
 		s := describe(sp.Name, x)
 		b, _ := json.MarshalIndent(s, "", " ")
